@@ -30,7 +30,7 @@ SPEC = {
 DEFS = ["(Definition/MyDef,(Blue,Red))", "(Definition/ValDef/#,(Green,Label/#))",
         "(Definition/OnDef,(Blue))", "(Definition/OnVal/#,(Label/#))", "(Definition/OnDef2,(Blue))",
         "(Definition/ExtraDef,(Blue,Red))", "(Definition/MissDef/#,(Green,Label/#))",
-        "(Definition/AltDef,(Blue,Red))"]
+        "(Definition/AltDef,(Blue,Red))", "(Definition/LenDef/#,(Distance/#,Green))"]
 # a definition written in unsorted order (former finding C01-F1, repaired by cbb8087)
 DEFS_F1 = ["(Definition/OrdDef,(Red,Blue))"]
 
@@ -69,6 +69,7 @@ class Vocab:
             self.nodes.append(n)
             self.by_short[parts[-1].casefold()] = n
         self.all_terms = {n["short"].casefold() for n in self.nodes}
+        self.declared_vclasses = {v["name"] for v in sch["value_classes"]}
         self.units = {}
         self.blank_units = {}
         for uc in sch["unit_classes"]:
@@ -98,7 +99,7 @@ class Vocab:
             n = self.by_short.get(name)
             return n is not None and (attr is None or attr in n["attrs"])
         self.has_defs = has("def") and has("def-expand") and has("definition") and all(
-            has(x) for x in ("blue", "red", "green", "label"))
+            has(x) for x in ("blue", "red", "green", "label", "distance"))
         self.temporal = [x for x in ("Onset", "Offset", "Inset") if has(x.casefold(), "topLevelTagGroup")]
         self.duration_top = [x for x in ("Duration", "Delay") if has(x.casefold(), "topLevelTagGroup")]
         self.event_context = has("event-context", "unique")
@@ -623,3 +624,116 @@ def mutate(rng, V, tree, rule, ph, modern):
         a0, b0 = rng.choice(spans)
         return s[:a0] + "/" + s[a0:] if x < 0.7 else s[:b0] + "/" + s[b0:]
     raise ValueError(rule)
+
+
+# ---------------------------------------------------------------------------------------------------------------
+# value classes: expectation computed from the XML reading + class_regex.json only
+VALUE_CANDIDATES = ["5", "5.5", "-3e2", ".5", "loud", "very-loud", "level_2", "some text", "2021-03-04T05:06:07",
+                    "5.5.5", "+-3", "very loud", "a$b", "1.5e", "3 dB", "x!y", "12:30", "a.b"]
+
+
+class ClassRegex:
+    """class_regex.json evaluated independently of hed-python (python `re` on the literals of the file)."""
+
+    def __init__(self, path):
+        import json
+        d = json.load(open(path, encoding="utf8"))
+        self.char_regex, self.class_chars, self.class_words = d["char_regex"], d["class_chars"], d["class_words"]
+
+    def word_ok(self, cls, value):
+        rx = self.class_words.get(cls)
+        return True if not rx else re.match(rx, value) is not None
+
+    def bad_chars(self, cls, value):
+        names = self.class_chars.get(cls) or []
+        if not names:
+            return []
+        rx = re.compile("|".join(self.char_regex[n] for n in names))
+        return [ch for ch in value if not rx.match(ch)]
+
+    def verdict(self, classes, value):
+        """('ok', set()) or ('bad', codes that must be reported) for a tag with these value classes."""
+        if not classes:
+            return "ok", set()
+        per = [(self.word_ok(c, value), self.bad_chars(c, value)) for c in classes]
+        if any(w and not b for w, b in per):
+            return "ok", set()
+        codes = set()
+        for w, b in per:
+            if not w:
+                codes.add("VALUE_INVALID")
+            elif any(ch in "{}" for ch in b):
+                codes.add("SIDECAR_BRACES_INVALID")
+            if w and any(ch not in "{}" for ch in b):
+                codes.add("CHARACTER_INVALID")
+        return "bad", codes
+
+    def accepting(self, classes, value):
+        return sum(1 for c in classes if self.word_ok(c, value) and not self.bad_chars(c, value))
+
+
+EXT_OK = set("-_/.+-^ _#: ")
+
+
+def value_expectation(CR, n, value, declared=None):
+    """Expected verdict for `<tag>/<value>` (no unit written) of the valued node n.  A valueClass attribute that names
+    a class the schema does not define (8.0.0 / testlib 1.0.2: labelClass) is no value class."""
+    vcs, ucs = n["value"]["vclass"], n["value"]["unit"]
+    if declared is not None:
+        vcs = [c for c in vcs if c in declared]
+    if not vcs and not ucs:
+        bad = [ch for ch in value if not (ch.isalnum() or ch in EXT_OK)]
+        return ("bad", {"CHARACTER_INVALID"}) if bad else ("ok", set())
+    return CR.verdict(vcs, value)
+
+
+def value_cases(rng, V, CR, per_set):
+    """Every value-class SET of the schema (incl. tags with several value classes): `per_set` tags each,
+    every candidate value; returns (text, expect_kind, codes, meta)."""
+    groups = {}
+    for n in V.valued:
+        groups.setdefault((tuple(n["value"]["vclass"]), bool(n["value"]["unit"])), []).append(n)
+    out = []
+    for key in sorted(groups):
+        ns = groups[key]
+        chosen = ns if per_set is None or len(ns) <= per_set else rng.sample(ns, per_set)
+        for n in chosen:
+            for v in VALUE_CANDIDATES:
+                if n["value"]["unit"] and " " in v:
+                    continue
+                kind, codes = value_expectation(CR, n, v, V.declared_vclasses)
+                base = form_of(rng, n)
+                acc = CR.accepting([c for c in n["value"]["vclass"] if c in V.declared_vclasses], v)
+                out.append((base + "/" + v, kind, codes,
+                            {"classes": list(key[0]), "unit": key[1], "accepted_by": acc}))
+    return out
+
+
+def unit_forms(V, uc):
+    """Spellings the schema admits for the units of class uc (symbols case sensitive)."""
+    sym, word = set(), set()
+    for u in V.units.get(uc, []):
+        if u["symbol"]:
+            sym.add(u["name"])
+            if u["si"]:
+                sym.update(m + u["name"] for m in V.mods_symbol)
+        else:
+            for nm in (u["name"], u["name"] + "s", u["name"] + "es"):
+                word.add(nm.casefold())
+                if u["si"]:
+                    word.update((m + nm).casefold() for m in V.mods_word)
+    return sym, word
+
+
+def def_case_pairs(rng, V):
+    """(good, bad) values of Def/LenDef/# that differ ONLY in letter case: valid SI symbol vs an invalid respelling."""
+    sym, word = unit_forms(V, "physicalLengthUnits")
+    pairs = []
+    for m in V.mods_symbol + [""]:
+        good = m + "m"
+        if good not in sym:
+            continue
+        for bad in {good.upper(), good.capitalize(), good.swapcase()}:
+            if bad != good and bad not in sym and bad.casefold() not in word and bad.casefold() == good.casefold():
+                pairs.append((good, bad))
+    return pairs
